@@ -235,6 +235,11 @@ def d2(ctx, F):
 
 
 def d3(ctx, F):
+    # "explicitly refused with an error frame": the refusal in handle_stream must be reachable — nothing in front of it (serde hooks on
+    # TopicName, the frame decoder) may reject a violating name first, which would end the stream without an answer
+    from . import c05
+    c05.d1_serde_plain(ctx, F)
+    c05.d1_decoder_plain(ctx, F, "C11.D3")
     hr = F.one_body(r"^selium::streams::handle_reply::\{closure#0\}$")
     ctx.touch(hr)
     hr = F.inlined(hr)          # error-building helpers are looked through
